@@ -224,6 +224,7 @@ func Check(run *Run) *Result {
 	}
 	res.Events = len(run.Evs)
 	res.TraceHash = strings.Join(kinds, ",")
+	res.States = stepEffects(run.Evs)
 	classifyDeath(run, res)
 	if res.DeathKind == "harness" || res.DeathKind == "hang" {
 		return res
@@ -276,3 +277,47 @@ func isInternalKey(k []byte) bool {
 }
 
 func isDocKind(k string) bool { return k == "mut" || k == "del" || k == "exp" }
+
+// stepEffects is the "distinct states" measure of the evidence: one abstract state per scheduler step =
+// the kind of the chosen action together with the set of kinds of things the system did in response
+// during that step (requests sent, writes applied, events delivered, callbacks, calls returned, ...),
+// identities dropped. Two runs reach the same abstract state when the same stimulus had the same kind of effect.
+func stepEffects(evs []journal.Ev) []string {
+	var out []string
+	cur := -1
+	act := ""
+	eff := map[string]bool{}
+	flush := func() {
+		if cur < 0 {
+			return
+		}
+		ks := make([]string, 0, len(eff))
+		for k := range eff {
+			ks = append(ks, k)
+		}
+		sort.Strings(ks)
+		out = append(out, act+" => "+strings.Join(ks, " "))
+	}
+	for i := range evs {
+		e := &evs[i]
+		if e.K == "d" || e.K == "cfg" {
+			continue
+		}
+		if e.St != cur {
+			flush()
+			cur, act, eff = e.St, "", map[string]bool{}
+		}
+		switch e.K {
+		case journal.KStep:
+			act = abstractAction(e.ID)
+		case journal.KReq, journal.KRsp:
+			eff[e.K+":"+e.S+":"+e.S2] = true
+		case journal.KHandler, journal.KCall, journal.KRet, journal.KEmit, journal.KConsume, journal.KFault, journal.KDisk:
+			eff[e.K+":"+e.S] = true
+		default:
+			eff[e.K] = true
+		}
+	}
+	flush()
+	return out
+}
